@@ -368,7 +368,10 @@ func TestC14(t *testing.T) {
 			"substring(string(/), 2, 3)", "substring('abcdef', 3)", "substring-before('a-b-c', '-')", "substring-after(string(//a), '1')", "normalize-space(' a  b ')", "normalize-space(string(/))",
 			"concat('a', 'b', string(//a))", "concat(name(/*), '-', local-name(//b))", "string-length(string(/))", "string-length('é€')", "contains(string(/), '1')", "starts-with('abc', 'ab')",
 			"round(1.5) + floor(2.7) + ceiling(0.2)", "sum(//b) div count(//*)", "number(' 12 ') mod 5", "boolean(//a) and not(//nosuch)", "lang('en')", "namespace-uri(/*)", "name(//@*)",
-			"string(//a[last()])", "count(//*[position() mod 2 = 1])", "local-name(//namespace::node()[1])", "string(1 div 3)", "string(123456789012)"}
+			"string(//a[last()])", "count(//*[position() mod 2 = 1])", "local-name(//namespace::node()[1])", "string(1 div 3)", "string(123456789012)",
+			// deep and long expressions (whatever is counted per evaluation must be counted per evaluation)
+			strings.Repeat("(", 160) + "count(//a)" + strings.Repeat(")", 160), "1" + strings.Repeat(" + 1", 400), "//a" + strings.Repeat("[.]", 120), strings.Repeat("-", 300) + "1",
+			"count(" + strings.Repeat("(", 100) + "//a | //b" + strings.Repeat(")", 100) + ")"}
 		for i, n := 0, rapid.IntRange(2, 6).Draw(t, "nExprs"); i < n; i++ {
 			if rapid.IntRange(0, 2).Draw(t, "fixedExpr") != 0 {
 				c.Exprs = append(c.Exprs, fixed[rapid.IntRange(0, len(fixed)-1).Draw(t, "fixed")])
